@@ -11,10 +11,14 @@ from harness.framework import Suite
 from harness.swctext import Expect, cps, sci_value
 
 PID = "C15"
-LEAN_MODS = ["SwcVerif.Props.C15"]
+TRANSLATE_ALGO = ["AlgoAsc"]   # Gen/AlgoAsc.lean: the token-level Parser and from_ast / walk_ast of neurolucida_asc.py, regenerated on every run
+DRIVER_FILES = ["SwcVerif/Model/AlgoRunAsc.lean"]
+LEAN_MODS = ["SwcVerif.Props.C15", "SwcVerif.Props.C15Gen"]
 THEOREMS = [
     "C15.convert_faithful", "C15.rows_count", "C15.trailing_ignored", "C15.comment_skipped", "C15.color_skipped", "C15.leading_comment_skipped",
     "C15.bad_point_rejected", "C15.unbracketed_point_rejected", "C15.node_error_propagates", "C15.truncation_rejected_body", "C15.header_truncation_rejected", "C15.truncation_rejected", "C15.lex_skips_blanks", "C15.lex_structural",
+    # about the definitions GENERATED from the current source (Gen/AlgoAsc.lean)
+    "C15.generated_from_ast_eq_rows", "C15.generated_walk_fuel", "C15.generated_rows_ids", "C15.generated_token_protocol_partial",
 ]
 TRUSTED = ["hand-written lexer/parser model Model/Asc.lean (tied by the c15.convert correspondence on generated, truncated and corrupted documents); "
            "the AST is not materialised in the model: rows are created in `_parse_node` order (= the pre-order `walk_ast` assigns), covered by the correspondence"]
@@ -573,7 +577,7 @@ class Convert(Suite):
 
     def lines(self, case, res):
         if "exc" in res:
-            return [(f"asc cp={cps(case['text'])}", "error")] if res["exc"] == "ValueError" else []
+            return ([(f"asc cp={cps(case['text'])}", "error")] + _gasc_lines(case, res)) if res["exc"] == "ValueError" else []
 
         def same(got):
             if not got.startswith("ok"):
@@ -588,7 +592,7 @@ class Convert(Suite):
                     return False
             return True
 
-        return [(f"asc cp={cps(case['text'])}", Expect(same, "impl=" + repr({k: res[k] for k in ("pid", "type")})[:600]))]
+        return [(f"asc cp={cps(case['text'])}", Expect(same, "impl=" + repr({k: res[k] for k in ("pid", "type")})[:600]))] + _gasc_lines(case, res)
 
     def oracle(self, case, res):
         try:
@@ -634,6 +638,52 @@ class Convert(Suite):
 
     def klass(self, case, res):
         return case["class"] + ("/raised" if "exc" in res else "")
+
+
+GASC_MAX_TOKENS = 60000     # the generated definitions work on Lean lists (appending at the end is linear): longer documents only go through `asc`
+
+
+def lex_real(text):
+    """the token stream of the REAL `Lexer` as protocol words `<TokenType value>:<payload>` (a str value as code points, a float as `#k`
+    = the k-th float of the document) and the floats; None when the lexer itself raises (a word that looks like a number and is none)"""
+    from swcgeom.transforms.neurolucida_asc import Lexer
+
+    words, floats = [], []
+    try:
+        for tok in Lexer(io.StringIO(text)):
+            if isinstance(tok.value, float):
+                words.append(f"{tok.type.value}:#{len(floats)}")
+                floats.append(tok.value)
+            else:
+                words.append(f"{tok.type.value}:" + ".".join(str(ord(c)) for c in tok.value))
+    except ValueError:
+        return None, None
+    return words, floats
+
+
+def _gasc_lines(case, res):
+    """the definitions GENERATED from the current source of the token-level parser (`Parser._parse` and everything below it) and of
+    `from_ast` / `walk_ast`, run on the token stream of the real lexer and compared with the real `from_stream`"""
+    words, floats = lex_real(case["text"])
+    if words is None or len(words) > GASC_MAX_TOKENS:
+        return []
+    line = "gasc toks=" + ",".join(words)
+    if "exc" in res:
+        return [(line, "error")]
+
+    def same(got):
+        head, *rows = got.split(" | ")
+        if head != f"ok {res['n']}" or len(rows) != res["n"]:
+            return False
+        for k, r in enumerate(rows):
+            f = r.split()
+            if int(f[0]) != res["id"][k] or int(f[1]) != res["type"][k] or int(f[6]) != res["pid"][k]:
+                return False
+            if [float(np.float32(floats[int(v)])) for v in f[2:6]] != res["xyzr"][k]:
+                return False
+        return True
+
+    return [(line, Expect(same, "impl=" + repr({k: res[k] for k in ("id", "pid", "type")})[:600]))]
 
 
 def _ser(rows):
